@@ -320,6 +320,8 @@ DEFAULT_CFG = {
     "strat_obj": False,
     "rec_durs": [0],             # ticks spent inside the strategy object's record_failure (menu)
     "abort_kind": "method",      # "falsy-object": abort_if is a callable object whose bool() is False
+    "deco_shared": False,        # one retry(...) decorator object is applied to a function of the
+                                 # *other* kind (sync / async) first, then to the function under test
     "classifier_kind": "method",  # "falsy": the classifier is a callable rule table with len() == 0
     "global_rng": False,         # library strategies draw from the process-global random stream
     "abort_truthy": False,       # abort_if answers 7 (truthy, but not the literal True) when it aborts
@@ -1271,13 +1273,24 @@ class World:
 
                 async def opfn():
                     return await world.op_async()
-                obj = retry_deco(**kw)(opfn)
+                deco = retry_deco(**kw)
+                if self.cfg["deco_shared"]:
+                    import warnings
+                    with warnings.catch_warnings():
+                        warnings.simplefilter("ignore")
+                        deco(lambda: None)          # a plain function decorated first
+                obj = deco(opfn)
             else:
                 world = self
 
                 def opfn():
                     return world.op_sync()
-                obj = retry_deco(**kw)(opfn)
+                deco = retry_deco(**kw)
+                if self.cfg["deco_shared"]:
+                    async def _other():
+                        return None
+                    deco(_other)                    # a coroutine function decorated first
+                obj = deco(opfn)
         else:
             raise HarnessError(f"unknown entry {entry}")
         self.retry_objs[base] = obj
@@ -1450,6 +1463,10 @@ class World:
         return rec
 
     def _end_outcome(self, o):
+        if not hasattr(o, "ok") or not hasattr(o, "stop_reason"):
+            # execute() handed back something that is not an outcome (None, ...): an observation
+            self.trace.append(("end", "ret", self.ident(o) if o is not None else "None"))
+            return self.trace[-1]
         tl = None
         t = getattr(o, "timeline", None)
         if t is not None:
